@@ -13,7 +13,7 @@ PLAN = dict(
         "a context is destroyed only after its loop returned, when it has no children and is nobody's cancel target",
         "cancel targets of the extra threads are cancelled either once bound or as soon as the object exists (racing with their own first use); a context may also be "
         "cancelled by its creator before its first use (must stay cancelled, its loop body must not run); these shapes and the bind-versus-propagation windows were "
-        "genuine defects, repaired in /repo (ea1ac1e, 35a0cf8), and are part of the default domain",
+        "genuine defects, repaired in /repo (commits 'fix: a task_group_context bound during a concurrent cancellation could miss it' and 'fix: cancellation requested on a task_group_context before its first use was lost ...'), and are part of the default domain",
         "the outer task_group's own context is reset by wait(); it is only checked for that reset"],
     floor=dict(quick=500, thorough=5000),
     tiers=dict(
